@@ -17,6 +17,7 @@ import (
 // go/packages overlay: nothing under /repo is modified.
 
 type Mutant struct {
+	Only   string // restrict the functions verified (GOVC_ONLY) so that a mutant run stays short
 	File   string
 	Expect []string
 	Why    string
@@ -34,6 +35,9 @@ func readMutant(path string) (*Mutant, error) {
 		l := sc.Text()
 		if strings.HasPrefix(l, "# expect:") {
 			m.Expect = append(m.Expect, strings.TrimSpace(strings.TrimPrefix(l, "# expect:")))
+		}
+		if strings.HasPrefix(l, "# only:") {
+			m.Only = strings.TrimSpace(strings.TrimPrefix(l, "# only:"))
 		}
 		if strings.HasPrefix(l, "# why:") {
 			m.Why = strings.TrimSpace(strings.TrimPrefix(l, "# why:"))
@@ -131,6 +135,7 @@ func runMutants(prop string, files []string, verbose bool) (int, int, []string) 
 			bad++
 			continue
 		}
+		os.Setenv("GOVC_ONLY", m.Only)
 		resetTerms()
 		heapSorts = map[string]string{}
 		heapIsRef = map[string]bool{}
@@ -164,6 +169,7 @@ func runMutants(prop string, files []string, verbose bool) (int, int, []string) 
 			bad++
 		}
 	}
+	os.Unsetenv("GOVC_ONLY")
 	say("selftest %s: %d mutants, %d not caught as expected", prop, len(files), bad)
 	return len(files), bad, lines
 }
